@@ -109,6 +109,58 @@ func origins(v ssa.Value) []ssa.Value {
 	return out
 }
 
+// elemOrigins: the leaf values the elements of a slice may come from (through
+// append, varargs arrays, φ and spilled locals).
+func elemOrigins(v ssa.Value) []ssa.Value {
+	var out []ssa.Value
+	seen := map[ssa.Value]bool{}
+	var elems func(v ssa.Value)
+	elems = func(v ssa.Value) {
+		if v == nil || seen[v] {
+			return
+		}
+		seen[v] = true
+		switch x := v.(type) {
+		case *ssa.Phi:
+			for _, e := range x.Edges {
+				elems(e)
+			}
+		case *ssa.Call:
+			if b, ok := x.Call.Value.(*ssa.Builtin); ok && b.Name() == "append" {
+				for _, a := range x.Call.Args {
+					elems(a)
+				}
+			}
+		case *ssa.Slice:
+			elems(x.X)
+		case *ssa.Alloc, *ssa.MakeSlice:
+			for _, ref := range *x.(ssa.Value).Referrers() {
+				if ia, ok := ref.(*ssa.IndexAddr); ok {
+					for _, r2 := range *ia.Referrers() {
+						if st, ok := r2.(*ssa.Store); ok && st.Addr == ia {
+							out = append(out, origins(st.Val)...)
+						}
+					}
+				}
+			}
+		case *ssa.UnOp:
+			if x.Op == token.MUL {
+				if a, ok := x.X.(*ssa.Alloc); ok {
+					for _, ref := range *a.Referrers() {
+						if st, ok := ref.(*ssa.Store); ok && st.Addr == a {
+							elems(st.Val)
+						}
+					}
+				}
+			}
+		default:
+			out = append(out, v) // a slice that comes from elsewhere (a parameter)
+		}
+	}
+	elems(v)
+	return out
+}
+
 // varargsOf returns the values passed in a variadic call's final slice
 // argument (nil for none).
 func varargsOf(v ssa.Value) (vals []ssa.Value, known bool) {
